@@ -472,6 +472,9 @@ func (cr *clRun) checkSnapshotsAcrossReplicas(when string) {
 						break
 					}
 				}
+				if clause == "snapshot-differs-between-replicas" && cr.unackedWriteOnlyOnWO(bad) != nil {
+					clause += "/failed-write-kept-by-rebuilding-replica"
+				}
 				cr.viol("C13", clause, "%s: snapshot %s differs between %s and %s: %s", when, s.name, refName, rn.name, describeDiff(img, ref))
 				return
 			}
@@ -669,13 +672,20 @@ func (cr *clRun) deepChecks(when string, promoted string) {
 		}
 		if eq, bad := cr.equalMasked(img[:cr.m.size], ref[:cr.m.size]); !eq {
 			clause := "rw-replicas-differ"
+			note := ""
 			for _, x := range []*repNode{rn, rws[0]} {
 				if w := cr.unalignedWriteWhileWO(x.addr, bad); w != nil {
 					clause += "/unaligned-write-during-rebuild"
 					break
 				}
 			}
-			cr.viol(prop("C02"), clause, "%s: RW replicas %s and %s differ: %s", when, rws[0].name, rn.name, describeDiff(img, ref))
+			if clause == "rw-replicas-differ" {
+				if w := cr.unackedWriteOnlyOnWO(bad); w != nil {
+					clause += "/failed-write-kept-by-rebuilding-replica"
+					note = fmt.Sprintf(" [write %d failed towards the initiator but was applied by %v while rebuilding; a cold start followed]", w.idx, w.woAppliers)
+				}
+			}
+			cr.viol(prop("C02"), clause, "%s: RW replicas %s and %s differ: %s%s", when, rws[0].name, rn.name, describeDiff(img, ref), note)
 			return
 		}
 		if rev != refRev {
@@ -744,6 +754,9 @@ func (cr *clRun) deepChecks(when string, promoted string) {
 							clause += "/unaligned-write-during-rebuild"
 							break
 						}
+					}
+					if clause == "common-snapshot-differs-between-rw-replicas" && cr.unackedWriteOnlyOnWO(bad) != nil {
+						clause += "/failed-write-kept-by-rebuilding-replica"
 					}
 					cr.viol(prop("C13"), clause, "%s: snapshot %s differs between %s and %s: %s", when, n, rws[0].name, rn.name, describeDiff(a, b))
 					return
